@@ -71,6 +71,26 @@ theorem C12_stop_extras (p : Prelim) (products : Dict Str RecVal) (key : Str) (g
     (given.environment = none → (finalOf p products key given).extras.environment = p.extras.environment) := by
   refine ⟨rfl, ?_, ?_, ?_, ?_, ?_, ?_⟩ <;> intro h <;> simp_all [finalOf, LinkExtras.override]
 
+/-- **C12 (gpg key-argument forms).** Finishing succeeds only if exactly one
+preliminary record of that step exists, it is unaltered and was signed by the
+same key; the link then holds its materials. A record started by another key,
+a re-signed one, none or several: failure. -/
+theorem C12_stop_glob_spec (key : Str) (products : Dict Str RecVal) (prelims : List (FState Prelim))
+    (given : LinkExtras) (l : FinalLink) (h : recordStopGlob key products prelims given = .ok l) :
+    ∃ p, prelims = [.complete p] ∧ p.signer = key ∧ p.intact = true ∧ l = finalOf p products key given := by
+  unfold recordStopGlob at h
+  split at h
+  · cases h
+  · rename_i p
+    split at h
+    · rename_i hc
+      cases h
+      exact ⟨p, rfl, hc.1, hc.2, rfl⟩
+    · cases h
+  · cases h
+  · cases h
+  · cases h
+
 /-- At least one of the two records is whole. -/
 def Safe (p : Prelim) (link : FinalLink) (d : WDir) : Prop :=
   d.prelim = .complete p ∨ d.final = .complete link
